@@ -1,5 +1,6 @@
 (* Correspondence obligations for C20: the model's output on the cases the implementation ran.
-   format_model: px.NewFormatContext3(value, spec) + px.ToString2  vs  format_value (text or error class)
+   format_model: px.NewFormatContext3(value, spec) + px.ToString2  vs  format_value (text or error class), and the
+                 observed text vs the float shape specification (float_shape_check)
    radix_model : the rendering of an integer and px.New(c, Integer, text, radix)  vs  format_value / int_new
    radix_pad_model : the same for renderings under any flags, width and precision (padding spaces trimmed),
                  through the positional and the named dispatch of the constructor  vs  int_ctor
@@ -12,7 +13,7 @@
    keys_model  : px.IsAssignable between the key types of format maps, and of key types against the
                  values' inferred types  vs  key_sub / key_accepts *)
 From Coq Require Import ZArith NArith Bool List.
-From PcoreV Require Import Model.Base Model.Format Model.FormatShare Model.FormatSprintf.
+From PcoreV Require Import Model.Base Model.Format Model.FormatShare Model.FormatSprintf Model.FormatFloatShape.
 Import ListNotations.
 Open Scope Z_scope.
 
@@ -41,11 +42,16 @@ Definition obs_eqb (a b : obs) : bool :=
 
 Record fcase := mkCase { c_v : value; c_spec : fspec; c_o : oracle; c_obs : obs }.
 
+(* float_shape_check (Model/FormatFloatShape.v), on every case: the digit strings the implementation showed are ASCII
+   (the hypothesis fdig_ascii of C20_width_respected / C20_float_shape), and for a Boolean / Integer / Float under a
+   directive string with e E f g G a A the observed text is `width` runes wide and, under e E f a A, IS the shape
+   go_fmt_float_spec around the observed digit string *)
 Definition format_check (c : fcase) : bool :=
   match format_value (c_o c) (c_v c) (c_spec c) with
   | Some r => obs_eqb r (c_obs c)
   | None => false                         (* out of fuel: never (Properties/C20.v, format_total) *)
-  end.
+  end
+  && float_shape_check (c_o c) (c_v c) (c_spec c) (c_obs c).
 Definition format_mismatches (cs : list fcase) : list N := failing format_check cs.
 
 Record scase := mkSCase { s_v : lvalue; s_spec : fspec; s_o : oracle; s_obs : obs }.
